@@ -1,0 +1,90 @@
+//go:build verif
+
+// Verification hooks (build tag "verif"). Add-only: the segmentTree behind a plain interface
+// (sequence number + one tag byte per entry), so that the harness can run op sequences against it.
+
+package protocol
+
+import "github.com/enfein/mieru/v3/pkg/common"
+
+type VerifSegTree struct{ t *segmentTree }
+
+type VerifEntry struct {
+	Seq uint32
+	Tag byte
+}
+
+func VerifNewSegTree(capacity int) *VerifSegTree { return &VerifSegTree{t: newSegmentTree(capacity)} }
+
+func verifEntry(seg *segment) VerifEntry {
+	seq, _ := seg.Seq()
+	var tag byte
+	if len(seg.payload) > 0 {
+		tag = seg.payload[0]
+	}
+	return VerifEntry{Seq: seq, Tag: tag}
+}
+
+func (v *VerifSegTree) Insert(seq uint32, tag byte) bool {
+	return v.t.Insert(&segment{
+		metadata:  &dataAckStruct{baseStruct: baseStruct{protocol: uint8(dataClientToServer)}, seq: seq, payloadLen: 1},
+		payload:   []byte{tag},
+		transport: common.PacketTransport,
+	})
+}
+
+func (v *VerifSegTree) DeleteMin() (VerifEntry, bool) {
+	seg, ok := v.t.DeleteMin()
+	if !ok {
+		return VerifEntry{}, false
+	}
+	return verifEntry(seg), true
+}
+
+func verifPred(kind int, a uint32) segmentIterator {
+	return func(iter *segment) bool {
+		seq, _ := iter.Seq()
+		switch kind {
+		case 0:
+			return seq < a
+		case 1:
+			return seq <= a
+		case 2:
+			return true
+		}
+		return false
+	}
+}
+
+// DeleteMinIf: kind 0 = seq < a, 1 = seq <= a, 2 = always, 3 = never. Returns the minimum (if any) and
+// whether it was deleted.
+func (v *VerifSegTree) DeleteMinIf(kind int, a uint32) (VerifEntry, bool, bool) {
+	seg, deleted := v.t.DeleteMinIf(verifPred(kind, a))
+	if seg == nil {
+		return VerifEntry{}, false, deleted
+	}
+	return verifEntry(seg), true, deleted
+}
+
+// Ascend returns the entries the iterator was called on; it continues while the predicate holds.
+func (v *VerifSegTree) Ascend(kind int, a uint32) []VerifEntry {
+	var out []VerifEntry
+	p := verifPred(kind, a)
+	v.t.Ascend(func(iter *segment) bool {
+		out = append(out, verifEntry(iter))
+		return p(iter)
+	})
+	return out
+}
+
+func (v *VerifSegTree) DeleteAll()     { v.t.DeleteAll() }
+func (v *VerifSegTree) Len() int       { return v.t.Len() }
+func (v *VerifSegTree) Remaining() int { return v.t.Remaining() }
+func (v *VerifSegTree) MinSeq() (uint32, bool) {
+	s, err := v.t.MinSeq()
+	return s, err == nil
+}
+func (v *VerifSegTree) MaxSeq() (uint32, bool) {
+	s, err := v.t.MaxSeq()
+	return s, err == nil
+}
